@@ -368,16 +368,16 @@ impl AbstractInstructionSet {
                     if right is 0 assign 0;
                     commutative: true;
                 },
+                // `0 / x` is not 0 when `x` is 0: the division must still panic.
                 Either::Left(VirtualOp::DIV(..)) => transform_operator! {DIV, DIVI;
                     both_known: u64::checked_div;
                     if right is 1 assign left;
-                    if left is 0 assign 0;
                 },
+                // `0 ** x` is not 0 when `x` is 0: `0 ** 0` is 1.
                 Either::Left(VirtualOp::EXP(..)) => transform_operator! {EXP, EXPI;
                     both_known: u64::checked_pow;
                     if right is 0 assign 1;
                     if right is 1 assign left;
-                    if left is 0 assign 0;
                     if left is 1 assign 1;
                 },
                 Either::Left(VirtualOp::MLOG(..)) => transform_operator! {MLOG, None;
